@@ -401,6 +401,9 @@ SWEEPS = [
     ("unwrap-abuse", "unwrap-abuse", "allow_in_tests", [False, True]),
     ("clone-abuse", "clone-abuse", "allow_in_tests", [False, True]),
     ("blocking-async", "blocking-async", "allow_in_tests", [False, True]),
+    # the alternative section names (the one `thailint init-config` writes for the pipeline linter; the alias of improper-logging)
+    ("pipeline", "pipeline", "min_continues", [1, 2, 3]),
+    ("improper-logging", "print-statements", "allow_in_scripts", [False, True]),
     ("perf", "performance", "string-concat-loop.enabled", [True, False]),
     ("perf", "performance", "regex-in-loop.enabled", [True, False]),
     ("perf", "performance", "string-concat-loop.report_each_concat", [True, False]),
